@@ -21,6 +21,7 @@ class TableInfo:
     sub_select: ast.ASTNode = None
     predictor_info: dict = None
     join_condition = None
+    join_type = None
     index: int = None
 
 class PlanJoin:
@@ -156,7 +157,7 @@ class PlanJoinTablesQuery:
         if parts in self.tables_idx:
             return self.tables_idx[parts]
 
-    def get_join_sequence(self, node, condition=None):
+    def get_join_sequence(self, node, condition=None, join_type=None):
         sequence = []
         if isinstance(node, Identifier):
             # resolve identifier
@@ -172,6 +173,7 @@ class PlanJoinTablesQuery:
 
             if condition is not None:
                 table_info.join_condition = condition
+                table_info.join_type = join_type
             sequence.append(table_info)
 
         elif isinstance(node, Join):
@@ -182,7 +184,7 @@ class PlanJoinTablesQuery:
             for item in sequence2:
                 sequence.append(item)
 
-            sequence2 = self.get_join_sequence(node.right, condition=node.condition)
+            sequence2 = self.get_join_sequence(node.right, condition=node.condition, join_type=node.join_type)
             if len(sequence2) != 1:
                 raise PlanningException('Unexpected join nesting behavior')
 
@@ -462,6 +464,10 @@ class PlanJoinTablesQuery:
         return columns_map
 
     def get_filters_from_join_conditions(self, fetch_table):
+
+        if (fetch_table.join_type or '').upper() in ('RIGHT JOIN', 'RIGHT OUTER JOIN', 'FULL JOIN', 'FULL OUTER JOIN'):
+            # every row of the table is kept by the join, also those that do not meet the join condition
+            return []
 
         binary_ops = set()
         conditions = []
